@@ -590,6 +590,16 @@ def _arg_extreme(ex, args, node, st, which):
             if (x < q.items[best]) if which == 'min' else (x > q.items[best]):
                 best = k
         return best
+    if q.items is not None and 0 < len(q.items) <= 8:
+        # a short literal list of symbolic values: the index of the first extreme element, position by position
+        k = fresh('arg%s' % which, IntS)
+        xs = list(q.items)
+        st.assume(z3.Or([k == t for t in range(len(xs))]))
+        for t in range(len(xs)):
+            facts = [z3.Not(zbool(less(xs[u], xs[t]))) for u in range(len(xs)) if u != t]
+            facts += [zbool(less(xs[t], xs[u])) for u in range(t)]
+            st.assume(z3.Implies(k == t, z3.And(facts) if facts else z3.BoolVal(True)))
+        return k
     n = zint(q.length)
     ex.oblige('nonempty', n > 0, st, node, 'arg%s of an empty sequence raises ValueError' % which)
     st.assume(n > 0)
